@@ -31,6 +31,10 @@ def gen_points(rng, n):
     for i in range(n):
         r = rng.random()
         v = G.value(rng)
+        if rng.random() < 0.12:
+            # degenerate str values: only blanks/tabs (separator, indent), only quote marks, only punctuation, padded
+            # one-character tokens - under the str-like declared types and undeclared
+            v = G.degenerate_str_value(rng)
         t = G.consistent_typ(rng, v)
         if r < 0.55:
             d = G.clean_prose(rng, terminal=rng.choice([".", ".", ","]))
